@@ -55,7 +55,7 @@ def trace_events(job, res, cnt, hist):
             ev.append({"ev": "round", "sample": e["sample"], "items": e["items"], "start": e["start"], "bad": e["bad"], "id": job["id"]})
     ev.append({"ev": "ret", "hang": bool(res.get("hang")), "panic": "panic" in res, "verdict": bool(res.get("verdict", False)),
                "haserr": bool(res.get("haserr", False)), "named": int(res.get("named", 0)), "consumed": int(res.get("consumed", -1)),
-               "maxreq": int(res.get("maxreq", -1)), "leak": int(res.get("leak", 0)), "id": job["id"]})
+               "maxreq": int(res.get("maxreq", -1)), "leak": int(res.get("leak", 0)), "late": int(res.get("late", 0)), "id": job["id"]})
     return ev
 
 
